@@ -1017,8 +1017,14 @@ func (h *ResponseHeader) del(key []byte) {
 	case consts.HeaderSetCookie:
 		h.cookies = h.cookies[:0]
 	case consts.HeaderContentLength:
-		h.contentLength = 0
-		h.contentLengthBytes = h.contentLengthBytes[:0]
+		// A negative length stands for chunked (-1) or identity (-2) framing:
+		// there is no Content-Length field to delete, and turning it into 0
+		// would leave "Transfer-Encoding: chunked" in front of an unchunked,
+		// empty body.
+		if h.contentLength >= 0 {
+			h.contentLength = 0
+			h.contentLengthBytes = h.contentLengthBytes[:0]
+		}
 	case consts.HeaderConnection:
 		h.connectionClose = false
 	case consts.HeaderTrailer:
